@@ -41,9 +41,15 @@ LvAtoms1 == {"s_a"}
 LvOpqs   == {"lambda", "walrus", "fstring"}
 LvLits   == {"i0", "i1", "ibig", "ihex", "ibin", "ioct", "iund", "f15", "fexp", "fEneg", "fdot5", "f5dot", "finf", "fund",
              "j2", "j15"}
+DecInts  == {"i0", "i1", "ibig", "iund"}       \* decimal integer literals: "1.real" is not a token sequence ("1." is a float)
 LvAtomsAll == {"s_a", "s_esc", "s_quotes", "s_uni", "s_raw", "s_cat", "s_triple", "s_empty", "s_nl", "b_a", "b_esc", "b_quotes",
                "None", "True", "False", "Ellipsis", "e_tuple", "e_list", "e_dict", "e_setcall"}
 AllUn    == {"-", "+", "~", "not"}
+MinUn    == {"-", "~", "not"}
+LvOpq1   == {"lambda"}
+T3Bin    == {"-", "**"}
+T3Bool   == {"and"}
+T3Ctors  == {"tuple1", "list1", "attr", "idx", "call1", "cond"}
 AllBin   == {"|", "^", "&", "<<", ">>", "+", "-", "*", "/", "//", "%", "@", "**"}
 RepBin   == {"|", "^", "&", "<<", "+", "-", "*", "//", "**"}          \* every precedence level
 MinBin   == {"|", "<<", "-", "*", "**"}
@@ -288,6 +294,9 @@ CyPrec(e) == CASE e.k = "bool" -> IF e.v[1] = "or" THEN 1 ELSE 2
                                    [] e.v[1] \in {"+", "-"} -> 9 [] e.v[1] \in {"*", "/", "//", "%", "@"} -> 10 [] e.v[1] = "**" -> 12
 \* operator_enter / operator_exit
 Enter(old, new, ts) == IF old > new THEN Paren(ts) ELSE ts
+\* FlattenInListTransform (runs before EmbedSignature): x in (a, b) / x not in [a, b] with a non-empty display becomes an
+\* EvalWithTempExprNode, which the writer does not know
+IsMember(e) == e.k = "cmp" /\ Len(e.v) = 1 /\ e.v[1] \in {"in", "not in"} /\ e.c[2].k \in {"tuple", "list", "set"} /\ e.c[2].c # <<>>
 FoldedNeg(e) == e.k = "un" /\ e.v[1] = "-" /\ e.c[1].k = "num"       \* ConstantFolding: a negative literal node
 NotMember(e) == e.k = "un" /\ e.v[1] = "not" /\ e.c[1].k = "cmp" /\ Len(e.c[1].v) = 1
                 /\ e.c[1].v[1] \in {"in", "not in", "is", "is not"}       \* ConstantFolding._handle_NotNode
@@ -310,7 +319,8 @@ PI(e, pr) ==
                      ELSE Enter(pr, CyPrec(e), <<T(e.v[1])>> \o PI(e.c[1], CyPrec(e)))
     [] e.k \in {"bin", "bool"} -> Enter(pr, CyPrec(e), PI(e.c[1], CyPrec(e)) \o <<T(e.v[1])>> \o PI(e.c[2], CyPrec(e)))
     \* visit_PrimaryCmpNode = visit_BinopNode: operand1 operator operand2; node.cascade is never visited
-    [] e.k = "cmp" -> Enter(pr, 4, PI(e.c[1], 4) \o <<T(e.v[1])>> \o PI(e.c[2], 4))
+    [] e.k = "cmp" -> IF IsMember(e) THEN <<A(EllipsisLeaf)>>                \* visit_Node with allow_unknown_nodes
+                      ELSE Enter(pr, 4, PI(e.c[1], 4) \o <<T(e.v[1])>> \o PI(e.c[2], 4))
     \* visit_CondExprNode: no operator_enter at all
     [] e.k = "cond" -> PI(e.c[1], pr) \o <<T("if")>> \o PI(e.c[2], pr) \o <<T("else")>> \o PI(e.c[3], pr)
     [] e.k = "tuple" -> Paren(PIItems(e.c, 1, pr))
@@ -326,7 +336,7 @@ PI(e, pr) ==
 ImplText(e) == PI(e, 0)
 
 \* "1.real" is one float token followed by a name for the tokenizer: the impl text of a literal base is not a token sequence
-LexNode(g) == g.k = "attr" /\ g.c[1].k = "num"
+LexNode(g) == g.k = "attr" /\ g.c[1].k = "num" /\ g.c[1].v[1] \in DecInts
 
 ---------------------------------------------------------------------------
 (* what ConstantFolding may rewrite before the writer runs (beyond the two forms modelled above):  *)
@@ -346,27 +356,29 @@ FoldNode(g) == CASE g.k = "un" -> Closed(g.c[1]) /\ ~FoldedNeg(g)
 ---------------------------------------------------------------------------
 (* root-cause catalogue of the implementation-shaped printer *)
 IsOperator(g) == g.k \in OperatorKinds
+CmpLike(x) == x.k = "cmp" \/ NotMember(x)      \* `not (a in b)` is the comparison `a not in b` when the writer sees it
 SamePrecTight(g) ==      \* an operand with the operator's own precedence on the side where Python needs parentheses
   \/ g.k = "bin" /\ g.v[1] # "**" /\ g.c[2].k = "bin" /\ CyPrec(g.c[2]) = CyPrec(g)
   \/ g.k = "bin" /\ g.v[1] = "**" /\ g.c[1].k = "bin" /\ g.c[1].v[1] = "**"
-  \/ g.k = "cmp" /\ \E i \in 1..2 : g.c[i].k = "cmp"
-  \/ g.k = "un" /\ NotMember(g) /\ \E i \in 1..2 : g.c[1].c[i].k = "cmp"
+  \/ g.k = "cmp" /\ \E i \in 1..2 : CmpLike(g.c[i])
+  \/ g.k = "un" /\ NotMember(g) /\ \E i \in 1..2 : CmpLike(g.c[1].c[i])
 CondOperand(g) ==        \* a conditional expression where Python needs it parenthesised
   \/ g.k \in {"un", "bin", "bool", "cmp"} /\ \E i \in 1..Len(g.c) : g.c[i].k = "cond"
   \/ g.k = "un" /\ g.c[1].k = "cmp" /\ \E i \in 1..Len(g.c[1].c) : g.c[1].c[i].k = "cond"
   \/ g.k = "cond" /\ (g.c[1].k = "cond" \/ g.c[2].k = "cond")
 PrimaryBase(g) ==        \* attribute / subscript / call on an operator expression or a numeric literal
-  g.k \in {"attr", "sub", "call"} /\ (IsOperator(g.c[1]) \/ (g.k = "attr" /\ g.c[1].k = "num"))
+  g.k \in {"attr", "sub", "call"} /\ (IsOperator(g.c[1]) \/ LexNode(g))
 NegPow(g) == g.k = "bin" /\ g.v[1] = "**" /\ FoldedNeg(g.c[1])
 Tuple1(g) == g.k = "tuple" /\ Len(g.c) = 1
 Chain(g) == g.k = "cmp" /\ Len(g.v) > 1
+InList(g) == IsMember(g) \/ (NotMember(g) /\ IsMember(g.c[1]))
 \* does some node of e satisfy the predicate named t ?
 Pred(g, t) == CASE t = "tuple1" -> Tuple1(g) [] t = "chain" -> Chain(g) [] t = "assoc" -> SamePrecTight(g)
-                [] t = "cond" -> CondOperand(g) [] t = "primary" -> PrimaryBase(g) [] t = "negpow" -> NegPow(g)
+                [] t = "cond" -> CondOperand(g) [] t = "primary" -> PrimaryBase(g) [] t = "negpow" -> NegPow(g) [] t = "inlist" -> InList(g)
                 [] t = "fold" -> FoldNode(g) [] t = "lex" -> LexNode(g)
 RECURSIVE AnyT(_, _)
 AnyT(e, t) == Pred(e, t) \/ \E i \in 1..Len(e.c) : AnyT(e.c[i], t)
-Tags(e) == {t \in {"tuple1", "chain", "assoc", "cond", "primary", "negpow"} : AnyT(e, t)}
+Tags(e) == {t \in {"tuple1", "chain", "assoc", "cond", "primary", "negpow", "inlist"} : AnyT(e, t)}
 Foldish(e) == AnyT(e, "fold")
 LexBroken(e) == AnyT(e, "lex")
 Hazard(e) == LexBroken(e) \/ Norm(Parse(ImplText(e))) # Norm(e)
@@ -426,8 +438,12 @@ Push == /\ IsExpr /\ H < (IF IsLit THEN 1 ELSE 3) /\ ntok + 1 + Half(H) <= MaxT 
 Unary == /\ Room(1)
          /\ \E op \in UnOps : /\ (op # "not" => Opnd(Top(0)))
                               /\ Reduce(1, N("un", <<op>>, <<Top(0)>>))
+\* (`1 ** (a in b)`: ** on a C-typed bool operand follows the documented C typing of cpow=False (a double): left out;
+\*  a tuple display as a branch of a conditional expression next to an int literal is rejected by the compiler: by-catch)
+BoolTyped(e) == e.k = "cmp" \/ (e.k = "un" /\ e.v[1] = "not")
 Binary == /\ Room(2)
           /\ \E op \in BinOps : /\ Opnd(Top(1)) /\ Opnd(Top(0))
+                                /\ (op = "**" => ~BoolTyped(Top(1)) /\ ~BoolTyped(Top(0)))
                                 /\ Reduce(2, N("bin", <<op>>, <<Top(1), Top(0)>>))
 Boolean == /\ Room(2)
            /\ \E op \in BoolOps : Reduce(2, N("bool", <<op>>, <<Top(1), Top(0)>>))
@@ -437,7 +453,7 @@ Compare == /\ Room(2)
 \*  value-equal expression: a matter of constant folding, not of signatures -- left out of the family)
 ChainCmp == /\ Room(3) /\ ~(Closed(Top(2)) /\ Closed(Top(1))) /\ ~(Closed(Top(1)) /\ Closed(Top(0)))
             /\ \E o1 \in ChainOps, o2 \in ChainOps : Reduce(3, N("cmp", <<o1, o2>>, <<Top(2), Top(1), Top(0)>>))
-Cond == /\ Room(3) /\ "cond" \in CtorSet
+Cond == /\ Room(3) /\ "cond" \in CtorSet /\ Top(2).k # "tuple" /\ Top(0).k # "tuple"
         /\ Reduce(3, N("cond", <<>>, <<Top(2), Top(1), Top(0)>>))
 Display == \E ct \in CtorSet \cap DispCtors :
              CASE ct = "tuple1" -> Room(1) /\ Reduce(1, N("tuple", <<>>, <<Top(0)>>))
@@ -510,8 +526,8 @@ Verdict(e) == LET ref  == RefText(e)
                   roundtrip |-> Parse(ref) = e,
                   implparses |-> back.k # "nil",
                   catalogue |-> (~fold /\ hz) => tags # {},
-                  strikes |-> (~fold /\ tags \cap {"tuple1", "chain", "assoc", "cond", "negpow"} # {}) => hz]
-SetToSortedSeq(S) == LET order == <<"assoc", "chain", "cond", "negpow", "primary", "tuple1">> IN
+                  strikes |-> (~fold /\ tags \cap {"tuple1", "chain", "assoc", "cond", "negpow", "inlist"} # {}) => hz]
+SetToSortedSeq(S) == LET order == <<"assoc", "chain", "cond", "inlist", "negpow", "primary", "tuple1">> IN
                      SelectSeq(order, LAMBDA t : t \in S)
 ExprOK == ExprCase =>
             LET v == Verdict(E) IN
@@ -523,7 +539,7 @@ ExprOK == ExprCase =>
 RoundTrip == ExprCase => Parse(RefText(E)) = E
 ImplParses == ExprCase => Parse(ImplText(E)).k # "nil"
 Catalogue == (ExprCase /\ ~Foldish(E) /\ Hazard(E)) => Tags(E) # {}
-AlwaysStrikes == (ExprCase /\ ~Foldish(E) /\ Tags(E) \cap {"tuple1", "chain", "assoc", "cond", "negpow"} # {}) => Hazard(E)
+AlwaysStrikes == (ExprCase /\ ~Foldish(E) /\ Tags(E) \cap {"tuple1", "chain", "assoc", "cond", "negpow", "inlist"} # {}) => Hazard(E)
 
 (* qualified names: one "<locals>" per enclosing function, the function's own name last *)
 QualOK == IsSig => LET q == QualName(path) IN
